@@ -287,6 +287,15 @@ impl Scenario for C18 {
                 if let (Some(o), Some(first)) = (&c.odd, extras.first_mut()) {
                     first.1 = o.clone();
                 }
+                if (sel / 105) % 2 == 0 {
+                    // key names real Package-List fields carry (an implementation may special-case them)
+                    let real = ["arch", "profile", "protected", "essential", "Build-Hint", "x-foo", "Arch", "zz"];
+                    for (i, e) in extras.iter_mut().enumerate() {
+                        e.0 = real[(sel / 3 + i * 3) % real.len()].to_string();
+                    }
+                    let mut seen = std::collections::BTreeSet::new();
+                    extras.retain(|e| seen.insert(e.0.clone()));
+                }
                 if extras.len() >= 2 && (sel / 35) % 3 == 0 {
                     // two keys that differ only in letter case
                     let k0 = extras[0].0.clone();
